@@ -8,6 +8,9 @@
      streamflow.recovery.utils.GraphMapper.add / _update_token / get_equal_token
      streamflow.recovery.utils.GraphMapper.replace_token / move_token_to_root / remove_port
      streamflow.recovery.utils.GraphMapper.get_step_ids
+     streamflow.recovery.failure_manager._inject_tokens        (which tokens are put: injected_tokens)
+     streamflow.recovery.failure_manager.RollbackFailureManager._recover (on_tokens of step.restore: restore_tokens)
+     streamflow.workflow.step.ScatterStep.restore               (valid_tags / FilterTokenPort: scatter_valid_tags)
 
    What is abstracted.
    * The database and the tokens are a finite table [db]: one record per token with its id, port (id and
@@ -265,6 +268,22 @@ Section Ordered.
   Definition create_graph_mapper (dag : graph) (info : list (N * pinfo)) : option (mapper + merr) :=
     cgm_loop (length (gsucc dag) + 1) dag info empty_mapper (order (get_sinks dag)) [].
 End Ordered.
+
+(* ---------------- which tokens of a port are injected / regenerated ---------------- *)
+(* failure_manager._inject_tokens: the tokens put into a port of the recovery workflow are the AVAILABLE mapper
+   tokens of that port (Python sorts them by tag before the puts; the order is not modelled, only the set).
+   failure_manager._recover: [step.restore(on_tokens = ...)] receives the UNAVAILABLE mapper tokens of the step's
+   output ports.  ScatterStep.restore: valid_tags = their tags; the output port becomes a FilterTokenPort that
+   lets a token through iff its tag is one of them. *)
+Definition avail_of (m : mapper) (t : N) : bool :=
+  match aget (m_avail m) t with Some true => true | _ => false end.
+Definition injected_tokens (m : mapper) (port : N) : list N :=
+  filter (avail_of m) (mgetd (m_port_tokens m) port).
+Definition restore_tokens (m : mapper) (port : N) : list N :=
+  filter (fun t => negb (avail_of m t)) (mgetd (m_port_tokens m) port).
+Definition scatter_valid_tags (m : mapper) (port : N) : list N :=
+  flat_map (fun t => match aget (m_inst m) t with Some (tag, _) => [tag] | None => [] end) (restore_tokens m port).
+Definition filter_port_admits (valid_tags : list N) (tag : N) : bool := mem tag valid_tags.
 
 (* ---------------- GraphMapper.get_step_ids ---------------- *)
 Record steprec := mkStep { s_id : N; s_in : list N; s_out : list N }.   (* port ids *)
